@@ -238,6 +238,36 @@ fn tree_text(svg: &str, o: &usvg::Options) -> Option<String> {
     }
 }
 
+/// the same document seen through an `image` element (a data URL): the text of the nested tree
+fn nested_tree_text(svg: &str, o: &usvg::Options) -> Option<String> {
+    let outer = format!(
+        r#"<svg xmlns="http://www.w3.org/2000/svg" xmlns:xlink="http://www.w3.org/1999/xlink" width="80" height="60"><image id="im" width="80" height="60" xlink:href="data:image/svg+xml;base64,{}"/></svg>"#,
+        crate::c17::b64(svg.as_bytes())
+    );
+    fn find(g: &usvg::Group) -> Option<String> {
+        for n in g.children() {
+            match n {
+                usvg::Node::Image(im) => {
+                    if let usvg::ImageKind::SVG(t) = im.kind() {
+                        return Some(t.to_string(&usvg::WriteOptions::default()));
+                    }
+                }
+                usvg::Node::Group(g) => {
+                    if let Some(t) = find(g) {
+                        return Some(t);
+                    }
+                }
+                _ => {}
+            }
+        }
+        None
+    }
+    match pan::catch(|| usvg::Tree::from_str(&outer, o).ok().and_then(|t| find(t.root()))) {
+        Ok(Some(s)) => Some(canon(&s)),
+        _ => None,
+    }
+}
+
 pub fn corr(tier: &str, seed: u64, c: &mut Corr) {
     let mut rng = Rng::new(seed ^ 0xC09);
     // ---- classification tables: translator output vs the real predicates
@@ -517,6 +547,13 @@ pub fn search(tier: &str, seed: u64, s: &mut Search) {
                 s.case("unit==pixels", &a, true);
                 if !near(&ta, &tb) || !near(&ta, &tc) {
                     s.finding(&format!("oracle:spelling:unit==pixels:{}", prop), &format!("{}={}{} differs from {}px at dpi {}", prop, nmb, u, px, dpi), &a);
+                }
+            }
+            // the same two spellings inside an SVG referenced as an image: the configured options apply there too
+            if let (Some(ta), Some(tb)) = (nested_tree_text(&a, &o), nested_tree_text(&b, &o)) {
+                s.case("unit==pixels-in-nested-image", &a, true);
+                if !near(&ta, &tb) {
+                    s.finding(&format!("oracle:spelling:unit==pixels-in-nested-image:{}", prop), &format!("inside an SVG image {}={}{} differs from {}px at dpi {}", prop, nmb, u, px, dpi), &a);
                 }
             }
         }
